@@ -143,7 +143,7 @@ def slack_deadlines(case, real_ok, real_rel, model_ok, model_rel, chk):
         if dr == dm or abs(dr - dm) > 1 or 2 * k + 1 >= len(case["fuzz"]):
             continue
         jg = Tmap.get(tr["name"].rsplit("@", 1)[0])
-        if not jg or not isinstance(jg["T"], int):
+        if not jg or not isinstance(jg["T"], int) or not jg.get("variance"):
             continue
         x = I.fuzz_exact(jg["T"], jg["variance"][0], jg["variance"][1], fl["min_deadline"], fl["max_deadline"], case["fuzz"][2 * k + 1])
         if I.near_tie(x):
